@@ -43,7 +43,8 @@ type Line struct {
 	Taint []string `json:"taint"`
 }
 
-// Known-finding signatures (see known_findings.d/c05.jsonl).
+// Finding signatures (see known_findings.d/c05.jsonl; sigAlias and sigNonCanon
+// are fixed in the repository since a51bcc8de and kept as regression signatures).
 const (
 	sigAlias    = "typevalue-aliases-caller-bytes:LookupByValue"
 	sigRace     = "decode-typedef-race:concurrent-namedef"
